@@ -258,7 +258,7 @@ def foreign_literal(form: int, content: bytes) -> bool:
 
 
 @ob('O20.5', 'encrypted message grammar: session-key packet(s) first, then exactly one encrypted container; signed-then-encrypted keeps the inner signed sequence',
-    'passphrase-encrypted message; 0..1 signer; content of 0..2 symbolic octets; cipher from {CAST5, AES128, AES256}', cond_timeout={'q': 280, 't': 900})
+    'passphrase-encrypted message; 0..1 signer; content of 0..2 symbolic octets; cipher from {CAST5, AES128, AES256}', cond_timeout={'q': 280, 't': 900}, flags=('lazyhex',))
 def encrypted_grammar(ci: int, signed: bool, content: bytes) -> bool:
     """
     pre: 0 <= ci < 3
